@@ -521,6 +521,29 @@ func (w *world) run(k *Case) (line, impl string) {
 		if j.JwkAlg != "" {
 			m["alg"] = j.JwkAlg
 		}
+		// a "kid" member inside the jwk is the client's to choose; the server must key everything by the thumbprint
+		switch j.JwkKid {
+		case "self":
+			if id, err := acme.KeyToID(jk); err == nil {
+				m["kid"] = id
+			}
+		case "victim":
+			v := w.own[0]
+			if ow != nil && ow.acct != req {
+				v = ow
+			} else if req == w.own[0].acct {
+				v = w.own[1]
+			}
+			m["kid"] = v.acct.Key.Thumb()
+		case "deact":
+			if a, err := e.NewAccount("p0", env.NewKey("es256", 0)); err == nil {
+				if rec := e.Post(a, env.Path("p0", "account", a.ID), []byte(`{"status":"deactivated"}`)); rec.Code == 200 {
+					m["kid"] = a.Key.Thumb()
+				}
+			}
+		case "arb":
+			m["kid"] = "chosen-by-the-client"
+		}
 		prot["jwk"] = m
 	}
 	kidStr := func() string {
@@ -625,7 +648,7 @@ func (w *world) run(k *Case) (line, impl string) {
 				if jk.Algorithm != "" {
 					ja = in.id("alg:" + jk.Algorithm)
 				}
-				jwkF = fmt.Sprintf("%s.%d.%s.%d.%d", c.B(isRsa), bytes, c.B(jk.Valid()), in.id("key:"+th), ja)
+				jwkF = fmt.Sprintf("%s.%d.%s.%d.%d.%d", c.B(isRsa), bytes, c.B(jk.Valid()), in.id("key:"+th), ja, in.idp("key:", jk.KeyID))
 				if ns == 1 {
 					v := env.Verify(body, jk)
 					vers = append(vers, fmt.Sprintf("%d:%s%s%s%s", in.id("key:"+th), c.B(v.Ver0), c.B(v.PadR), c.B(v.PadS), c.B(v.PadRS)))
@@ -792,7 +815,21 @@ func (w *world) run(k *Case) (line, impl string) {
 			fpAfter = "1"
 		}
 	}
-	impl = fmt.Sprintf("%s n=%s%s acc=%s rev=%s fp=%s", verdict, c.B(nlBefore), c.B(nlAfter), accAfter, revAfter, fpAfter)
+	// new-account: which account answered — one the model was told about (the account of the embedded key, the
+	// account the kid names), a new one, or some other existing account (a?)
+	who := "-"
+	if k.Route == "newAccount" && verdict == "ok" {
+		locID := env.LastPathElem(rec.Header().Get("Location"))
+		switch {
+		case accs[locID] != nil:
+			who = fmt.Sprintf("a%d", in.id("acc:"+locID))
+		case rec.Code == 201:
+			who = "new"
+		default:
+			who = "a?"
+		}
+	}
+	impl = fmt.Sprintf("%s n=%s%s acc=%s rev=%s who=%s fp=%s", verdict, c.B(nlBefore), c.B(nlAfter), accAfter, revAfter, who, fpAfter)
 
 	f["m"], f["p"] = "POST", c.X(pattern)
 	f["pid"], f["pname"], f["pknown"] = fmt.Sprint(in.idp("prov:", provID)), fmt.Sprint(in.idp("pname:", provName)), c.B(provID != "")
